@@ -114,7 +114,8 @@ def check_end(sim):
             pr.append(("wrap:" + drv, "%d further sends complete" % sim.cfg.get("follow", 0),
                        "send #%d -> %s" % (bad[0][1], bad[0][2] if len(bad[0]) > 2 else bad[0][0])))
         elif wrong and not sim.late:
-            pr.append(("result:" + drv, "follow-up answer " + want[1], wrong[0][1]))
+            cancelled = any(e[1] == "env" and e[2] == "cancel" for e in sim.events)
+            pr.append((("xtalk-cancel:" if cancelled and drv != "tridonic" else "result:") + drv, "follow-up answer " + want[1], wrong[0][1]))
     return pr
 
 
@@ -122,6 +123,7 @@ def check_results(sim, faulty):
     """no caller receives another command's data; a fault-free caller gets its own answer"""
     pr = []
     from .sim import ANSWERS
+    cancelled = any(e[1] == "env" and e[2] == "cancel" for e in sim.events)
     for c in sim.callers:
         if not c.done or c.result[0] != "ok":
             continue
@@ -139,7 +141,11 @@ def check_results(sim, faulty):
                 want = "<none>"
                 ok = r is not None and r.endswith(":none")
             if not ok:
-                pr.append(("result:" + sim.kind, "caller %d %s -> %s" % (c.tid, it, want), str(r)))
+                if cancelled and sim.kind != "tridonic":
+                    key = "xtalk-cancel:" + sim.kind
+                else:
+                    key = "result:" + sim.kind
+                pr.append((key, "caller %d %s -> %s" % (c.tid, it, want), str(r)))
     return pr
 
 
@@ -273,8 +279,7 @@ def check_all(sim):
     pr = []
     pr += check_c15(sim, faulty)
     pr += check_end(sim)
-    cancelled = any(e[1] == "env" and e[2] == "cancel" for e in sim.events)
-    if not ((sim.late or cancelled) and not sim.is_hid):
+    if not (sim.late and not sim.is_hid):
         # an answer later than timeout_rx is (mis)handled by the stale-answer logic: property C16's business
         pr += check_results(sim, faulty)
     pr += check_c17(sim)
